@@ -31,8 +31,9 @@ class Machine(object):
         self.ld = cls(weighted=True)
         self.bag = {}
         self.stats = {}
+        self.ever = set()
 
-    def law(self):
+    def law(self, exact=False):
         ld = self.ld
 
         def run(script):
@@ -51,12 +52,11 @@ class Machine(object):
             if m > 0:
                 for w in self.bag.values():
                     hints.add(w / m)
-            for mm in W_POOL:
-                if mm > 0:
+            for mm in self.ever:      # a stale maximum is a weight that was once present
+                if mm > m:
                     for w in self.bag.values():
-                        if w < mm:
-                            hints.add(w / mm)
-        ex = Explorer(run, sig, hints=hints, max_runs=5000)
+                        hints.add(w / mm)
+        ex = Explorer(run, sig, hints=hints, max_runs=100000 if exact else 5000, exact=exact)
         leaves = ex.explore([])
         self.stats["probe_runs"] = self.stats.get("probe_runs", 0) + ex.runs
         self.stats["rejection_loops"] = self.stats.get("rejection_loops", 0) + ex.loops
@@ -94,6 +94,9 @@ class Machine(object):
         if tot > 0:
             code, ref, leaves = self.law()
             bad = compare_laws(code, ref, 1e-8)
+            if bad:
+                code, ref, leaves = self.law(exact=True)
+                bad = compare_laws(code, ref, 1e-8)
             dev = max([abs(code.get(k, 0.0) - ref.get(k, 0.0)) for k in set(code) | set(ref)] + [0.0])
             self.stats["max_law_dev"] = max(self.stats.get("max_law_dev", 0.0), dev)
             self.stats["laws_probed"] = self.stats.get("laws_probed", 0) + 1
@@ -152,6 +155,7 @@ class Machine(object):
         elif name == "probe":
             pass
         self.peak = max([self.peak] + [abs(w) for w in bag.values()])
+        self.ever.update(w for w in bag.values() if w > 0)
         return None
 
 
